@@ -20,7 +20,8 @@ RULE = (
     "(reached / leaves / live / ops written from the documentation) compared with the enumerators, the three "
     "counters and the callbacks actually made by serial visit_leaves and walk. A case is non-trivial when its "
     "filter has a gap (accepted tile with no accepted child) or rejects something, or its apex has n>=1; a history when "
-    "two different pyramids in it share depth and apex; "
+    "two different pyramids in it share depth and apex; one generated pyramid in eight is first asked for a sub-pyramid whose apex "
+    "lies below its depth (documented as illegal): once that request has been refused the pyramid must behave as before; "
     "for the algebra, when n>=2. distinct = distinct case fingerprints."
 )
 ASSUMPTIONS = [
@@ -183,9 +184,19 @@ def make_pyramid(kind, depth, fspec, apex, coordsys="astronomical"):
     else:
         F = gens.filter_fn(fspec)
         p = py.Pyramid.new_toast_filtered(depth, lambda t: F(tuple(t.pos)), coordsys=cs)
+    if _PRE_REJECT is not None:
+        # a request for an apex below the pyramid's depth is documented as illegal; once it has been refused the pyramid
+        # must be what it was before
+        try:
+            p.subpyramid(py.Pos(*_PRE_REJECT))
+        except ValueError:
+            pass
     if apex is not None:
         p = p.subpyramid(py.Pos(*apex))
     return p
+
+
+_PRE_REJECT = None
 
 
 def compare_pyramid(kind, depth, fspec, apex, coordsys="astronomical", routes=True):
@@ -326,13 +337,24 @@ def classes_of(kind, depth, fspec, apex, ref):
 
 
 def exec_pyramid(case):
+    global _PRE_REJECT
     kind, depth, fspec, apex = case["kind"], case["depth"], case.get("filter"), case.get("apex")
     cs = case.get("coordsys", "astronomical")
-    with toasty_call("pyramid"):
-        ref, vis, walked = compare_pyramid(kind, depth, fspec, apex, cs)
-        if apex is not None:
-            sub_vs_full(kind, depth, fspec, apex, cs, vis, walked)
+    _PRE_REJECT = case.get("rejected_apex")
+    try:
+        with toasty_call("pyramid", "pyramid use" + (f" after a refused subpyramid({_PRE_REJECT})" if _PRE_REJECT else "")):
+            ref, vis, walked = compare_pyramid(kind, depth, fspec, apex, cs)
+            if apex is not None:
+                sub_vs_full(kind, depth, fspec, apex, cs, vis, walked)
+    except Violation as v:
+        if _PRE_REJECT:
+            raise Violation(v.clause, f"after a refused subpyramid({_PRE_REJECT}) request: {v.msg}")
+        raise
+    finally:
+        _PRE_REJECT = None
     cl, nt = classes_of(kind, depth, fspec, apex, ref)
+    if case.get("rejected_apex"):
+        cl.append("after-refused-subpyramid-request")
     return Outcome(classes=cl, nontrivial=nt, info={"leaves": len(ref.leaves), "live": len(ref.live), "ops": len(ref.ops)})
 
 
@@ -354,6 +376,9 @@ def strat_pyramid(draw, tier):
             cand = sorted(ref.reached)
             ap = list(cand[draw(st.integers(0, len(cand) - 1))])
         case["apex"] = ap
+    if draw(st.integers(0, 7)) == 0:
+        n = depth + draw(st.integers(1, 3))
+        case["rejected_apex"] = [n, draw(st.integers(0, 2**n - 1)), draw(st.integers(0, 2**n - 1))]
     return case
 
 
